@@ -155,7 +155,7 @@ theorem runLoop_succ_raise {pc : Nat} {e : VEntry} {st : State} {x : RErr} (n : 
     (h : c.code[pc]? = some e) (hs : step rec env vm c e pc st = raise env vm c x) :
     runLoop rec env vm c (n + 1) pc st = raiseRun env vm c x := by
   simp only [runLoop, h, hs, raise, raiseRun]
-  split <;> rfl
+  cases reportTargetOk env vm c <;> rfl
 
 /-- a state whose top slot was pushed by the instruction at `i` -/
 def topState (st : State) (v : Value) (i : Nat) (rest0 : List Slot) : State :=
@@ -182,7 +182,7 @@ theorem attrs_run (st : State) (rest0 : List Slot) :
   | [], i0, cur, _, _ => by
     simp only [List.map_nil, walkVals, Option.some.injEq, List.length_nil, Nat.not_lt_zero, false_implies,
       implies_true, Nat.add_zero, true_and, reduceCtorEq]
-    intro v hv; subst hv; intro n; rfl
+    exact ⟨fun v hv n => by subst hv; rfl, trivial⟩
   | x :: rest, i0, cur, hcode, hsp => by
     have hc0 : c.code[i0 + 1]? = some (.loadAttr x.1 false, x.2) := by
       have := hcode 0 x (by simp); simpa using this
@@ -247,6 +247,111 @@ theorem attrs_run (st : State) (rest0 : List Slot) :
           cases n with
           | zero => simp at hn
           | succ n => rw [runLoop_succ_next rec env vm c n hc0 hstep]; exact hb n (by omega)
+
+
+/-- `LoadName n; LoadAttr a₁; …; LoadAttr aₘ` from `pc`, run by the interpreter loop -/
+theorem load_group_run (st : State) (pc : Nat) (n : String) (s : List Span)
+    (taken : List (String × List Span)) (hn : n ≠ MAGICAL_DUMP_VAR)
+    (hcode0 : c.code[pc]? = some (.loadName n, s))
+    (hcode : ∀ j x, taken[j]? = some x → c.code[pc + 1 + j]? = some (.loadAttr x.1 false, x.2))
+    (hsp : ∀ j, j ≤ taken.length → c.hasSpan (pc + j) = true) :
+    (∀ v, walkVals (st.scope.getValue n) (taken.map (·.1)) = some v →
+      (∀ m, m < taken.length + 1 → runLoop rec env vm c m pc st = .outOfFuel) ∧
+      (∀ m, runLoop rec env vm c (m + (taken.length + 1)) pc st
+        = runLoop rec env vm c m (pc + 1 + taken.length) (st.push v (pc + taken.length, pc + taken.length)))) ∧
+    (walkVals (st.scope.getValue n) (taken.map (·.1)) = none →
+      (∀ m, runLoop rec env vm c m pc st = .outOfFuel ∨
+        ∃ e, runLoop rec env vm c m pc st = raiseRun env vm c e) ∧
+      (∀ m, taken.length + 1 ≤ m → ∃ e, runLoop rec env vm c m pc st = raiseRun env vm c e)) := by
+  have hstep : step rec env vm c (.loadName n, s) pc st
+      = .next (pc + 1) (topState st (st.scope.getValue n) pc st.stack) := by
+    simp only [step, lookupName_of_ne _ n hn]; rfl
+  have h := attrs_run rec env vm c st st.stack taken pc (st.scope.getValue n) hcode hsp
+  constructor
+  · intro v hv
+    obtain ⟨ha, hb⟩ := h.1 v hv
+    constructor
+    · intro m hm
+      cases m with
+      | zero => exact runLoop_zero_some rec env vm c _ hcode0
+      | succ m => rw [runLoop_succ_next rec env vm c m hcode0 hstep]; exact ha m (by omega)
+    · intro m
+      have e1 : m + (taken.length + 1) = (m + taken.length) + 1 := by omega
+      rw [e1, runLoop_succ_next rec env vm c _ hcode0 hstep, hb m]
+      rfl
+  · intro hv
+    obtain ⟨ha, hb⟩ := h.2 hv
+    constructor
+    · intro m
+      cases m with
+      | zero => exact Or.inl (runLoop_zero_some rec env vm c _ hcode0)
+      | succ m => rw [runLoop_succ_next rec env vm c m hcode0 hstep]; exact ha m
+    · intro m hm
+      cases m with
+      | zero => simp at hm
+      | succ m => rw [runLoop_succ_next rec env vm c m hcode0 hstep]; exact hb m (by omega)
+
+/-- `LoadName n; LoadAttr a₁; …; LoadAttr aₘ; WriteTop` from `pc`, run by the interpreter loop -/
+theorem write_group_run (st : State) (pc : Nat) (n : String) (s w : List Span)
+    (taken : List (String × List Span)) (hn : n ≠ MAGICAL_DUMP_VAR)
+    (hcode0 : c.code[pc]? = some (.loadName n, s))
+    (hcode : ∀ j x, taken[j]? = some x → c.code[pc + 1 + j]? = some (.loadAttr x.1 false, x.2))
+    (hcodew : c.code[pc + 1 + taken.length]? = some (.writeTop, w))
+    (hsp : ∀ j, j ≤ taken.length → c.hasSpan (pc + j) = true) :
+    (∀ v, walkVals (st.scope.getValue n) (taken.map (·.1)) = some v → v.isUndef = false →
+      (∀ m, m < taken.length + 2 → runLoop rec env vm c m pc st = .outOfFuel) ∧
+      (∀ m, runLoop rec env vm c (m + (taken.length + 2)) pc st
+        = runLoop rec env vm c m (pc + 1 + taken.length + 1) (emitValue env vm v st))) ∧
+    ((walkVals (st.scope.getValue n) (taken.map (·.1)) = none ∨
+        ∃ v, walkVals (st.scope.getValue n) (taken.map (·.1)) = some v ∧ v.isUndef = true) →
+      (∀ m, runLoop rec env vm c m pc st = .outOfFuel ∨
+        ∃ e, runLoop rec env vm c m pc st = raiseRun env vm c e) ∧
+      (∀ m, taken.length + 2 ≤ m → ∃ e, runLoop rec env vm c m pc st = raiseRun env vm c e)) := by
+  have h := load_group_run rec env vm c st pc n s taken hn hcode0 hcode hsp
+  have hlast : c.hasSpan (pc + taken.length) = true := hsp _ (Nat.le_refl _)
+  constructor
+  · intro v hv hvu
+    obtain ⟨ha, hb⟩ := h.1 v hv
+    have hstep : step rec env vm c (.writeTop, w) (pc + 1 + taken.length)
+        (st.push v (pc + taken.length, pc + taken.length))
+        = .next (pc + 1 + taken.length + 1) (emitValue env vm v st) := by
+      simp only [step, stepWriteTop, State.push, hvu, Bool.false_eq_true, ↓reduceIte]
+    constructor
+    · intro m hm
+      by_cases hm' : m < taken.length + 1
+      · exact ha m hm'
+      · have e : m = 0 + (taken.length + 1) := by omega
+        rw [e, hb 0]
+        exact runLoop_zero_some rec env vm c _ hcodew
+    · intro m
+      have e1 : m + (taken.length + 2) = (m + 1) + (taken.length + 1) := by omega
+      rw [e1, hb (m + 1), runLoop_succ_next rec env vm c m hcodew hstep]
+  · intro hv
+    rcases hv with hv | ⟨v, hv, hvu⟩
+    · obtain ⟨ha, hb⟩ := h.2 hv
+      exact ⟨ha, fun m hm => hb m (by omega)⟩
+    · obtain ⟨ha, hb⟩ := h.1 v hv
+      have hstep : step rec env vm c (.writeTop, w) (pc + 1 + taken.length)
+          (st.push v (pc + taken.length, pc + taken.length)) = raise env vm c .undefinedRender := by
+        simp only [step, stepWriteTop, State.push, hvu, ↓reduceIte]
+        exact renderingError_own env vm c hlast _
+      constructor
+      · intro m
+        by_cases hm' : m < taken.length + 1
+        · exact Or.inl (ha m hm')
+        · by_cases hm2 : m = taken.length + 1
+          · left
+            have e : m = 0 + (taken.length + 1) := by omega
+            rw [e, hb 0]
+            exact runLoop_zero_some rec env vm c _ hcodew
+          · right
+            have e : m = (m - (taken.length + 2) + 1) + (taken.length + 1) := by omega
+            rw [e, hb, runLoop_succ_raise rec env vm c _ hcodew hstep]
+            exact ⟨_, rfl⟩
+      · intro m hm
+        have e : m = (m - (taken.length + 2) + 1) + (taken.length + 1) := by omega
+        rw [e, hb, runLoop_succ_raise rec env vm c _ hcodew hstep]
+        exact ⟨_, rfl⟩
 
 end unfused
 
